@@ -1,5 +1,7 @@
 # unit `authorizer` (C03, C11 mode table, C01 policy lookup): proxy_authorizer.rs
-import os
+import os, sys
+sys.path.insert(0, os.path.join(os.path.dirname(os.path.dirname(os.path.abspath(__file__))), 'common'))
+import stubs
 HERE = os.path.dirname(os.path.abspath(__file__))
 COMMON = os.path.join(os.path.dirname(HERE), "common")
 
@@ -31,7 +33,8 @@ def build(u):
         with u.mod("error"):
             u.take_ext(err, ["Error", "HyperErrorType", "WireServerErrorType", "KeyErrorType", "AclErrorType", "BpfErrorType"], "vx_ext_error", uses="use http::{uri::InvalidUri, StatusCode};")
         with u.mod("result", uses="use super::error::Error;"):
-            u.raw("pub type Result<T> = core::result::Result<T, Error>;")
+            u.raw("pub type Result<T> = core::result::Result<T, Error>;", names=("Result",))
+        stubs.agent_logger_mod(u)
         with u.mod("constants"):
             for n in ("WIRE_SERVER_IP", "WIRE_SERVER_PORT", "GA_PLUGIN_IP", "GA_PLUGIN_PORT", "IMDS_IP", "IMDS_PORT", "PROXY_AGENT_IP", "PROXY_AGENT_PORT"):
                 u.take(consts, n, "const")
@@ -61,7 +64,7 @@ def build(u):
                 u.take_fn(ar, "ComputedAuthorizationItem::is_allowed", external_body=True, contract="""
         ensures r == is_allowed_spec(*self, request_url, claims),
 """)
-        with u.mod("proxy_authorizer", uses="use super::authorization_rules::{AuthorizationMode, ComputedAuthorizationItem};\nuse super::proxy_connection::ConnectionLogger;\nuse crate::{common::constants, common::result::Result, proxy::Claims};\nuse crate::shared_state::key_keeper_wrapper::KeyKeeperSharedState;\nuse log::Level as LoggerLevel;"):
+        with u.mod("proxy_authorizer", uses="use log::Level as LoggerLevel;", auto_uses=pa):
             u.take(pa, "AuthorizeResult", "enum", structural=True)
             with u.trait_(pa, "Authorizer", extra="    spec fn spec_auth(&self, url: hyper::Uri, rules: Option<ComputedAuthorizationItem>) -> AuthorizeResult;\n"):
                 u.take_fn(pa, "Authorizer::authorize", contract="""
